@@ -240,13 +240,18 @@ where
 
     // We accumulate all validity checks into single branches at the end in order to
     // keep the loop itself branchless.
-    let mut laps_or_zeros = 0usize;
+    let mut laps = 0usize;
+    let mut zeros = 0usize;
     let mut accum = Probability::zero();
 
     for probability in probabilities {
         let old_accum = accum;
         accum = accum.wrapping_add(probability.borrow());
-        laps_or_zeros += (accum <= old_accum) as usize;
+        // A zero probability must not be confused with the (single) wrap-around that is
+        // expected if `PRECISION == Probability::BITS`: otherwise, a single entry of (wrapped)
+        // value zero would be accepted as a degenerate model with a zero probability.
+        zeros += (*probability.borrow() == Probability::zero()) as usize;
+        laps += (accum < old_accum) as usize;
         let symbol = symbols.next().ok_or(())?;
         operation(symbol, old_accum, *probability.borrow())?;
     }
@@ -254,13 +259,13 @@ where
     let total = wrapping_pow2::<Probability>(PRECISION);
 
     if infer_last_probability {
-        if accum >= total || laps_or_zeros != 0 {
+        if accum >= total || laps != 0 || zeros != 0 {
             return Err(());
         }
         let symbol = symbols.next().ok_or(())?;
         let probability = total.wrapping_sub(&accum);
         operation(symbol, accum, probability)?;
-    } else if accum != total || laps_or_zeros != (PRECISION == Probability::BITS) as usize {
+    } else if accum != total || zeros != 0 || laps != (PRECISION == Probability::BITS) as usize {
         return Err(());
     }
 
